@@ -310,6 +310,9 @@ class Models(object):
             return SBool(z3.Or(*disj)) if disj else False
         if isinstance(container, MSet) and (container.ranges or isinstance(item, Sym)):
             return SBool(container.member(_int(item)))
+        if isinstance(container, SSetStr) and isinstance(item, (str, SStr)):
+            # set(<symbolic strings>): x is a member iff it equals one of the strings the set was built from
+            return self.contains(list(container.items), item)
         if isinstance(container, SSeq):
             if container.member is not None:
                 return SBool(container.member(_int(item)))
@@ -708,6 +711,55 @@ class Models(object):
             pieces = pieces[:maxsplit] + [tail]
         return [mkstr(SStr(p)) for p in pieces]
 
+    def str_rpartition(self, s, sep):
+        """s.rpartition(c) for a one-character separator: (head, c, tail) of the LAST occurrence, ('', '', s) if there
+        is none.  Atoms are visited from the right; a hole that may hold c forks (refinement): it holds none, or it
+        is v1 ++ c ++ v2 with v2 free of c - then the last occurrence is found."""
+        ctx = self.ctx
+        atoms = list(s.atoms)
+        for i in range(len(atoms) - 1, -1, -1):
+            a = atoms[i]
+            if isinstance(a, Lit):
+                k = a.s.rfind(sep)
+                if k >= 0:
+                    head = atoms[:i] + ([Lit(a.s[:k])] if a.s[:k] else [])
+                    tail = ([Lit(a.s[k + 1:])] if a.s[k + 1:] else []) + atoms[i + 1:]
+                    return (mkstr(SStr(head)), sep, mkstr(SStr(tail)))
+                continue
+            fn = _allowed_fn(a)
+            if fn is None:
+                raise Undecided("rpartition(%r) on %r" % (sep, s))
+            if not any(fn(sep, w) for w in ("first", "last", "any")):
+                continue
+            if not isinstance(a, Val):
+                raise Undecided("rpartition(%r): separator may occur inside %r" % (sep, a))
+            self.used("tmpl-split-refinement-fork")
+            if ctx.branch(z3.Contains(a.v, z3.StringVal(sep)), "hole-contains-%r" % sep):
+                v1, v2 = ctx.fresh_str("pre"), ctx.fresh_str("post")
+                ctx.assume(a.v == z3.Concat(v1, z3.StringVal(sep), v2))
+                ctx.assume(z3.Not(z3.Contains(v2, z3.StringVal(sep))))
+                n1 = Val(v1, excl=a.excl, excl_first=a.excl_first, nonempty=False)
+                n2 = Val(v2, excl=a.excl | {sep}, excl_last=a.excl_last, nonempty=False)
+                for c in n1.constraints() + n2.constraints():
+                    ctx.assume(c)
+                return (mkstr(SStr(atoms[:i] + [n1])), sep, mkstr(SStr([n2] + atoms[i + 1:])))
+            atoms[i] = Val(a.v, excl=a.excl | {sep}, nonempty=a.nonempty, excl_first=a.excl_first, excl_last=a.excl_last, tag=a.tag)
+        return ("", "", mkstr(SStr(atoms)))
+
+    def str_isdigit(self, s, name):
+        """str.isdigit / isdecimal / isnumeric of a string with holes: an unknown truth value b constrained from both
+        sides by what is certain in every Unicode version: all-ASCII-digit non-empty ==> b, and b ==> non-empty with no
+        ASCII character other than a digit.  (Non-ASCII digits exist, so nothing more is claimed.)"""
+        ctx = self.ctx
+        t = s.z3()
+        b = ctx.fresh_bool(name)
+        digit = z3.Range("0", "9")
+        ascii_other = z3.Union(z3.Range("\x00", "/"), z3.Range(":", "\x7f"))
+        anyc = z3.Star(z3.AllChar(z3.ReSort(z3.StringSort())))
+        ctx.assume(z3.Implies(z3.InRe(t, z3.Plus(digit)), b), light=True)
+        ctx.assume(z3.Implies(b, z3.And(z3.Length(t) > 0, z3.Not(z3.InRe(t, z3.Concat(anyc, ascii_other, anyc))))), light=True)
+        return SBool(b)
+
     def _refine_for_split(self, s, sep, budget=3):
         """Fork with a refinement (DESIGN.md 2.4b): a hole that may contain the single-character
         separator either does not contain it, or is v1 ++ sep ++ v2 with v1 free of sep."""
@@ -780,6 +832,10 @@ class Models(object):
             if isinstance(parts, list) and len(parts) == 1:
                 return (parts[0], "", "")
             raise Undecided("str.partition on a string with holes")
+        if name == "rpartition" and len(args) == 1 and isinstance(args[0], str) and len(args[0]) == 1 and isinstance(s, SStr):
+            return self.str_rpartition(s, args[0])
+        if name in ("isdigit", "isdecimal", "isnumeric") and not args and isinstance(s, SStr):
+            return self.str_isdigit(s, name)
         if name == "count":
             if isinstance(s, str):
                 raise Undecided("count with symbolic needle")
@@ -1845,7 +1901,7 @@ class Models(object):
 _WS = "".join(chr(c) for c in range(0x110000) if chr(c).isspace()) if False else " \t\n\r\x0b\x0c\x1c\x1d\x1e\x1f\x85\xa0\u1680\u2000\u2001\u2002\u2003\u2004\u2005\u2006\u2007\u2008\u2009\u200a\u2028\u2029\u202f\u205f\u3000"
 
 _STR_METHODS = {"format", "join", "startswith", "endswith", "split", "count", "rstrip", "strip", "lstrip",
-                "replace", "lower", "upper", "encode", "splitlines", "find", "index", "partition"}
+                "replace", "lower", "upper", "encode", "splitlines", "find", "index", "partition", "rpartition", "isdigit", "isdecimal", "isnumeric"}
 
 _OPSYM = {ast.Lt: "<", ast.LtE: "<=", ast.Gt: ">", ast.GtE: ">=", ast.Eq: "==", ast.NotEq: "!="}
 
